@@ -3,7 +3,6 @@ From FB Require Import Sem.Base Sem.Lemmas Sem.Hoare Model.Fb Model.Script Model
   Facets.Fb Facets.Fb2 Facets.C01.
 Open Scope Z_scope.
 
-Definition Inv2 (SIZE : Z) (s : fb) : Prop := Inv SIZE s /\ nf s.
 
 Section C03.
 Variable SIZE : Z.
